@@ -42,7 +42,7 @@ Names == <<
     [s |-> "import", go |-> "Import"], [s |-> "any", go |-> "Any"], [s |-> "options", go |-> "Options"],
     [s |-> "struct", go |-> "Struct"], [s |-> "service", go |-> "Service"], [s |-> "subservice", go |-> "Subservice"],
     [s |-> "snake_case_name", go |-> "SnakeCaseName"], [s |-> "x_1", go |-> "X1"], [s |-> "b2", go |-> "B2"],
-    [s |-> "UPPER", go |-> "Upper"], [s |-> "mixedCase", go |-> "Mixedcase"],
+    [s |-> "UPPER", go |-> "Upper"], [s |-> "mixedCase", go |-> "Mixedcase"], [s |-> "über_x", go |-> "ÜberX"],
     \* names of the fixed library
     [s |-> "v", go |-> "V"], [s |-> "x", go |-> "X"], [s |-> "y", go |-> "Y"], [s |-> "ok", go |-> "Ok"], [s |-> "s", go |-> "S"],
     [s |-> "k", go |-> "K"], [s |-> "id", go |-> "Id"], [s |-> "f", go |-> "F"], [s |-> "p", go |-> "P"], [s |-> "z", go |-> "Z"],
@@ -54,7 +54,7 @@ Names == <<
     [s |-> "do_unary", go |-> "DoUnary"], [s |-> "nothing", go |-> "Nothing"], [s |-> "one", go |-> "One"], [s |-> "chan", go |-> "Chan"],
     [s |-> "recv", go |-> "Recv"], [s |-> "send", go |-> "Send"], [s |-> "getMsg", go |-> "Getmsg"], [s |-> "say_hello", go |-> "SayHello"],
     [s |-> "open_sub", go |-> "OpenSub"] >>
-FieldNamePool == 14       \* the first 14 entries are used for generated field names
+FieldNamePool == 15       \* the first 15 entries are used for generated field names
 GoName(s) == LET S == {i \in DOMAIN Names : Names[i].s = s} IN IF S = {} THEN "?" ELSE Names[CHOOSE i \in S : TRUE].go
 
 \* ------------------------------------------------------------------ literals
